@@ -1,9 +1,605 @@
 /-
-  C29 — Encrypted capsules round-trip exactly and reject tampering.  (placeholder, proofs follow)
--/
-import MvModel.Capsule
-namespace Mv.Capsule
+  C29 — Encrypted capsules round-trip exactly and reject tampering.
 
-theorem C29_placeholder : HEADER_SIZE = 64 := HEADER_SIZE_eq
+  Model: MvModel/Capsule.lean (mirror of /repo/src/encryption/{types,capsule,capsule_stream}.rs);
+  lemmas: MvModel/CapsuleLemmas.lean.  The AEAD (AES-256-GCM) and the KDF (Argon2id) are parameters.
+  Hypotheses, bundled in `Locked`: one successful call `lock A kdf pw salt base f = ok c`, sizes of
+  salt/nonce as in the source, file and capsule shorter than 2^64 bytes, and `AeadIdeal`: the
+  ciphertexts `lock` produced decrypt to their plaintexts, are TAG_SIZE longer, and NO other
+  (key, nonce, ciphertext) triple authenticates (INT-CTXT idealised to probability 0).
+
+  `unlock true`  = the reader with /verif/fixes/C29.diff applied (partial length prefix = error,
+                   plaintext bytes written must equal header.original_size);
+  `unlock false` = the reader as it was before that fix.
+
+  What holds and what does not (every item is a theorem below):
+    C29_roundtrip, C29_lock_total            unlock (lock f) = f for every valid f (both readers)
+    C29_truncation                           every proper prefix of a capsule is rejected (repaired reader)
+    C29_counterexample_unfixed               … and the unrepaired reader accepts a cut after a whole chunk
+    C29_tamper                               a modified capsule OF THE SAME LENGTH (bit flips anywhere, chunk
+                                             reordering, header edits) is rejected unless it differs only in the
+                                             8 nonce bytes overwritten by the counter and in reserved[1..3]
+    C29_never_wrong_plaintext(_fs)           as long as the header's original_size field is intact, an accepted
+                                             capsule yields exactly f, whatever else was changed, any password
+    C29_output_is_chunks                     without that proviso the output is still a run of leading chunks
+                                             of f or one chunk of f — never fabricated bytes
+    C29_full (def) / C29_counterexample      the literal statement is false even for the repaired reader:
+    C29_accepts_ignored_header_bytes         - 11 header bytes are unauthenticated AND ignored
+    C29_accepts_truncation_with_size_edit    - cut at a frame boundary + rewritten original_size ⇒ prefix of f
+    C29_accepts_oneshot_rewrap               - one chunk re-wrapped as a legacy one-shot capsule ⇒ that chunk
+-/
+import MvModel.CapsuleLemmas
+namespace Mv.Capsule
+open Mv.Gen.C29
+
+/-- standing hypotheses: one successful `lock` call and the idealised AEAD relative to it -/
+structure Locked (A : Aead) (kdf : Kdf) (pw salt base f c : Bytes) : Prop where
+  saltLen : salt.length = SALT_SIZE
+  baseLen : base.length = NONCE_SIZE
+  fLen : f.length < 18446744073709551616
+  capLen : c.length < 18446744073709551616
+  locked : lock A kdf pw salt base f = .ok c
+  ideal : AeadIdeal A (kdf pw salt) base (chunks CHUNK_SIZE f)
+
+section helpers
+variable {A : Aead} {kdf : Kdf} {pw salt base f c : Bytes}
+
+theorem Locked.cap_eq (L : Locked A kdf pw salt base f c) :
+    c = encodeHeader (lockHeader salt base f) ++ frames A (kdf pw salt) base 0 (chunks CHUNK_SIZE f) :=
+  (lock_inv A kdf pw salt base f c L.locked).2.2
+
+theorem Locked.f_ne (L : Locked A kdf pw salt base f c) : f ≠ [] := by
+  have := (lock_inv A kdf pw salt base f c L.locked).1
+  intro h; subst h; simp at this
+
+theorem Locked.chunks_len (L : Locked A kdf pw salt base f c) :
+    (chunks CHUNK_SIZE f).length ≤ 18446744073709551616 := by
+  have := chunks_length_le CHUNK_SIZE f
+  have := L.fLen
+  omega
+
+theorem lockHeader_facts (salt base f : Bytes) (hs : salt.length = SALT_SIZE) (hb : base.length = NONCE_SIZE) :
+    (lockHeader salt base f).salt.length = SALT_SIZE ∧ (lockHeader salt base f).nonce.length = NONCE_SIZE ∧
+    (lockHeader salt base f).reserved.length = 4 ∧
+    (lockHeader salt base f).reserved.head? = some STREAM_FLAG :=
+  ⟨hs, hb, (by show LOCK_RESERVED.length = 4; decide), (by show LOCK_RESERVED.head? = some STREAM_FLAG; decide)⟩
+
+theorem chunk_pos : 0 < CHUNK_SIZE := by decide
+
+/-- a prefix list of the chunks whose plaintext has the length of `f` is all chunks -/
+theorem prefix_is_all (f : Bytes) (qs : List Bytes) (hpre : qs ++ (chunks CHUNK_SIZE f).drop qs.length = chunks CHUNK_SIZE f)
+    (hl : qs.flatten.length = f.length) : qs = chunks CHUNK_SIZE f := by
+  have hne : ∀ x ∈ (chunks CHUNK_SIZE f).drop qs.length, x ≠ [] :=
+    fun x hx => chunks_ne_nil CHUNK_SIZE chunk_pos f x (List.mem_of_mem_drop hx)
+  have hfl : (chunks CHUNK_SIZE f).flatten.length = f.length := by rw [chunks_flatten CHUNK_SIZE chunk_pos]
+  have : (chunks CHUNK_SIZE f).drop qs.length = [] := by
+    apply prefix_full_of_length qs _ hne
+    rw [hpre, hl, hfl]
+  rw [this, List.append_nil] at hpre
+  exact hpre
+
+/-- two headers with well-sized fields and the same encoding are equal -/
+theorem encodeHeader_inj (h1 h2 : Header)
+    (a1 : h1.salt.length = SALT_SIZE) (b1 : h1.nonce.length = NONCE_SIZE) (c1 : h1.reserved.length = 4)
+    (d1 : h1.originalSize < 18446744073709551616)
+    (a2 : h2.salt.length = SALT_SIZE) (b2 : h2.nonce.length = NONCE_SIZE) (c2 : h2.reserved.length = 4)
+    (d2 : h2.originalSize < 18446744073709551616) (h : encodeHeader h1 = encodeHeader h2) : h1 = h2 := by
+  have e1 := decode_encode h1 a1 b1 d1 c1
+  have e2 := decode_encode h2 a2 b2 d2 c2
+  rw [h, e2] at e1
+  exact (Except.ok.inj e1).symm
+
+/-- header and body of `a ++ x = b ++ y` when both heads are 64-byte headers -/
+theorem split_eq (h1 h2 : Header) (x y : Bytes)
+    (l1 : (encodeHeader h1).length = HEADER_SIZE) (l2 : (encodeHeader h2).length = HEADER_SIZE)
+    (h : encodeHeader h1 ++ x = encodeHeader h2 ++ y) : encodeHeader h1 = encodeHeader h2 ∧ x = y :=
+  List.append_inj h (by rw [l1, l2])
+
+end helpers
+
+/-! ## Round trip -/
+
+/-- **C29_roundtrip** — `unlock (lock f) = f` byte for byte, for every file `f` that `lock` accepts, of every
+    length (one chunk, several, exact multiples of the chunk size), for the reader before and after the fix. -/
+theorem C29_roundtrip (fx : Bool) (A : Aead) (kdf : Kdf) (pw salt base f c : Bytes)
+    (L : Locked A kdf pw salt base f c) : unlock fx A kdf pw c = .ok f := by
+  obtain ⟨hs, hn, hr, hflag⟩ := lockHeader_facts salt base f L.saltLen L.baseLen
+  have hg : Good A (kdf pw salt) base 0 (chunks CHUNK_SIZE f) :=
+    good_of_ideal A _ base _ (chunks CHUNK_SIZE f) [] L.ideal (by simp) (chunks_len_le CHUNK_SIZE f)
+  have := unlock_stream_accepts fx A kdf pw (lockHeader salt base f) (chunks CHUNK_SIZE f) [] hs hn hr L.fLen hflag hg
+    (by simp) (fun _ => ⟨rfl, by rw [chunks_flatten CHUNK_SIZE chunk_pos]; rfl⟩)
+  rw [chunks_flatten CHUNK_SIZE chunk_pos, List.append_nil] at this
+  rw [L.cap_eq]; exact this
+
+/-- **C29_lock_total** — `lock` succeeds exactly on the files that start with the MV2 magic (at least 4 bytes);
+    it refuses every other file (so a 0-byte file has no capsule). -/
+theorem C29_lock_total (A : Aead) (kdf : Kdf) (pw salt base f : Bytes) :
+    (∃ c, lock A kdf pw salt base f = .ok c) ↔ (4 ≤ f.length ∧ f.take 4 = MV2_MAGIC) := by
+  constructor
+  · rintro ⟨c, h⟩
+    exact ⟨(lock_inv A kdf pw salt base f c h).1, (lock_inv A kdf pw salt base f c h).2.1⟩
+  · rintro ⟨h1, h2⟩
+    exact ⟨_, lock_of_valid A kdf pw salt base f h1 h2⟩
+
+/-- the same as a file-system step: afterwards the output path holds exactly `f` -/
+theorem C29_roundtrip_fs (fx : Bool) (A : Aead) (kdf : Kdf) (pw salt base f c : Bytes) (old : Option Bytes)
+    (L : Locked A kdf pw salt base f c) : unlockFile fx A kdf pw c old = (.ok (), some f) := by
+  simp [unlockFile, C29_roundtrip fx A kdf pw salt base f c L, writeAtomic, Except.map]
+
+/-! ## What an accepted capsule can be (repaired reader), and the corollaries -/
+
+/-- **C29_output_is_chunks** — no proviso on the header: whatever bytes `c'` and password `pw'` are presented,
+    an accepted capsule yields the concatenation of the first `J` chunks of `f` (stream) or one single chunk of
+    `f` (one-shot) — never bytes that are not in `f`. -/
+theorem C29_output_is_chunks (fx : Bool) (A : Aead) (kdf : Kdf) (pw salt base f c : Bytes)
+    (L : Locked A kdf pw salt base f c) (pw' c' out : Bytes) (hc' : c'.length < 18446744073709551616)
+    (hu : unlock fx A kdf pw' c' = .ok out) :
+    (∃ J, out = ((chunks CHUNK_SIZE f).take J).flatten) ∨ out ∈ chunks CHUNK_SIZE f := by
+  obtain ⟨h, _, _, _, _, hcase⟩ :=
+    unlock_ok_shape fx A kdf (kdf pw salt) base (chunks CHUNK_SIZE f) L.ideal L.baseLen L.chunks_len pw' c' out hc' hu
+  rcases hcase with ⟨qs, tail, _, _, hpre, hout, _⟩ | ⟨m, p, _, hm, _, _, _, hout, _⟩
+  · left
+    refine ⟨qs.length, ?_⟩
+    rw [hout]
+    congr 1
+    conv => rhs; rw [← hpre]
+    simp
+  · right
+    rw [hout]; exact List.mem_of_getElem? hm
+
+/-- **C29_never_wrong_plaintext** — if the 8 header bytes holding `original_size` are those of the capsule,
+    then whatever else differs (any other header byte, any body byte, any length, any password `pw'`), an
+    accepted capsule yields exactly `f`. -/
+theorem C29_never_wrong_plaintext (A : Aead) (kdf : Kdf) (pw salt base f c : Bytes)
+    (L : Locked A kdf pw salt base f c) (pw' c' out : Bytes) (hc' : c'.length < 18446744073709551616)
+    (hsz : slice c' OFF_ORIGINAL_SIZE 8 = slice c OFF_ORIGINAL_SIZE 8)
+    (hu : unlock true A kdf pw' c' = .ok out) : out = f := by
+  obtain ⟨hs0, hn0, hr0, _⟩ := lockHeader_facts salt base f L.saltLen L.baseLen
+  obtain ⟨h, hs, hn, hr, hz, hcase⟩ :=
+    unlock_ok_shape true A kdf (kdf pw salt) base (chunks CHUNK_SIZE f) L.ideal L.baseLen L.chunks_len pw' c' out hc' hu
+  -- the size field of both capsules
+  have size_of : ∀ (hd : Header) (rest : Bytes), hd.salt.length = SALT_SIZE → hd.nonce.length = NONCE_SIZE →
+      slice (encodeHeader hd ++ rest) OFF_ORIGINAL_SIZE 8 = u64le hd.originalSize := by
+    intro hd rest a b
+    have : encodeHeader hd ++ rest = (HEADER_PREFIX ++ hd.salt ++ hd.nonce) ++ u64le hd.originalSize ++ (hd.reserved ++ rest) := by
+      simp [encodeHeader_eq]
+    rw [this]
+    exact slice_at _ _ _ _ _ (by
+      have hp : HEADER_PREFIX = [0x4D, 0x56, 0x32, 0x45, 1, 0, 1, 1] := by decide
+      rw [hp]; simp [a, b]; decide) (by simp [u64le])
+  have hc0 : slice c OFF_ORIGINAL_SIZE 8 = u64le f.length := by
+    rw [L.cap_eq]; exact size_of _ _ hs0 hn0
+  have hsize : c' = encodeHeader h ++ c'.drop HEADER_SIZE → h.originalSize = f.length := by
+    intro hc
+    have h1 := size_of h (c'.drop HEADER_SIZE) hs hn
+    rw [← hc, hsz, hc0] at h1
+    exact (leBytes_inj 8 _ _ (by have := L.fLen; omega) (by omega) h1).symm
+  have hl := encodeHeader_length h hs hn hr
+  rcases hcase with ⟨qs, tail, _, hc, hpre, hout, _, _, hfx⟩ | ⟨m, p, _, hm, hc, _, _, hout, hosz, _⟩
+  · obtain ⟨_, hosz⟩ := hfx rfl
+    have hdrop : c' = encodeHeader h ++ c'.drop HEADER_SIZE := by
+      conv => lhs; rw [hc, List.append_assoc]
+      rw [hc, List.append_assoc, (take_header h _ hl).2]
+    have hsz' := hsize hdrop
+    have : qs = chunks CHUNK_SIZE f := prefix_is_all f qs hpre (by rw [← hout, ← hosz, hsz'])
+    rw [hout, this, chunks_flatten CHUNK_SIZE chunk_pos]
+  · have hdrop : c' = encodeHeader h ++ c'.drop HEADER_SIZE := by
+      conv => lhs; rw [hc]
+      rw [hc, (take_header h _ hl).2]
+    have hsz' := hsize hdrop
+    have := single_of_length (chunks CHUNK_SIZE f) m p hm (chunks_ne_nil CHUNK_SIZE chunk_pos f)
+      (by rw [chunks_flatten CHUNK_SIZE chunk_pos, ← hosz, hsz'])
+    rw [chunks_flatten CHUNK_SIZE chunk_pos] at this
+    rw [hout, this]
+
+/-- the same as a file-system step (`write_atomic`): after `unlock_file` on ANY bytes with the size field intact,
+    the output path holds what it held before (error) or exactly `f` (success) — never other content. -/
+theorem C29_never_wrong_plaintext_fs (A : Aead) (kdf : Kdf) (pw salt base f c : Bytes)
+    (L : Locked A kdf pw salt base f c) (pw' c' : Bytes) (old : Option Bytes) (hc' : c'.length < 18446744073709551616)
+    (hsz : slice c' OFF_ORIGINAL_SIZE 8 = slice c OFF_ORIGINAL_SIZE 8) :
+    (unlockFile true A kdf pw' c' old).2 = old ∨ (unlockFile true A kdf pw' c' old).2 = some f := by
+  unfold unlockFile writeAtomic
+  cases hu : unlock true A kdf pw' c' with
+  | error e => left; rfl
+  | ok out => right; simp only; rw [C29_never_wrong_plaintext A kdf pw salt base f c L pw' c' out hc' hsz hu]
+
+/-- **C29_truncation** — truncation at any offset: every proper prefix of the capsule is rejected by the repaired
+    reader (with any password). -/
+theorem C29_truncation (A : Aead) (kdf : Kdf) (pw salt base f c : Bytes)
+    (L : Locked A kdf pw salt base f c) (pw' : Bytes) (n : Nat) (hn : n < c.length) :
+    ∃ e, unlock true A kdf pw' (c.take n) = .error e := by
+  cases hu : unlock true A kdf pw' (c.take n) with
+  | error e => exact ⟨e, rfl⟩
+  | ok out =>
+    exfalso
+    obtain ⟨hs0, hn0, hr0, hflag0⟩ := lockHeader_facts salt base f L.saltLen L.baseLen
+    have hl0 := encodeHeader_length _ hs0 hn0 hr0
+    have hclen : (c.take n).length < 18446744073709551616 := by
+      have := L.capLen; simp only [List.length_take]; omega
+    obtain ⟨h, hs, hnn, hr, hz, hcase⟩ :=
+      unlock_ok_shape true A kdf (kdf pw salt) base (chunks CHUNK_SIZE f) L.ideal L.baseLen L.chunks_len pw' _ out hclen hu
+    have hl := encodeHeader_length h hs hnn hr
+    -- the prefix is at least a header long and its header is the capsule's header
+    have hn64 : HEADER_SIZE ≤ n := by
+      have hlen : HEADER_SIZE ≤ (c.take n).length := by
+        rcases hcase with ⟨qs, tail, _, hc, _⟩ | ⟨m, p, _, _, hc, _⟩ <;>
+          (rw [hc]; simp only [List.length_append, hl]; omega)
+      simp only [List.length_take] at hlen; omega
+    have htk : (c.take n).take HEADER_SIZE = encodeHeader (lockHeader salt base f) := by
+      rw [List.take_take, Nat.min_eq_left hn64, L.cap_eq]
+      exact (take_header _ _ hl0).1
+    have hh : h = lockHeader salt base f := by
+      apply encodeHeader_inj h _ hs hnn hr hz hs0 hn0 hr0 L.fLen
+      rw [← htk]
+      rcases hcase with ⟨qs, tail, _, hc, _⟩ | ⟨m, p, _, _, hc, _⟩
+      · rw [hc, List.append_assoc]; exact (take_header h _ hl).1.symm
+      · rw [hc]; exact (take_header h _ hl).1.symm
+    rcases hcase with ⟨qs, tail, _, hc, hpre, hout, _, _, hfx⟩ | ⟨m, p, hnf, _⟩
+    · obtain ⟨htail, hosz⟩ := hfx rfl
+      have : qs = chunks CHUNK_SIZE f := prefix_is_all f qs hpre (by rw [← hout, ← hosz, hh]; rfl)
+      rw [htail, List.append_nil, this, hh, ← L.cap_eq] at hc
+      have : (c.take n).length = c.length := by rw [hc]
+      simp only [List.length_take] at this
+      omega
+    · rw [hh] at hnf; exact hnf hflag0
+
+/-- **C29_tamper** — modifications that keep the length (one or many flipped bits anywhere, swapped or reordered
+    chunks, edited header fields incl. salt, nonce, original_size, flags): if the repaired reader accepts `c'` with
+    the right password, then the output is `f` and `c'` is the capsule itself up to the 8 nonce bytes that the
+    chunk counter overwrites and the bytes `reserved[1..3]`; every other same-length modification is rejected.
+    `kdfInj`: no second 32-byte salt derives the same key from this password. -/
+theorem C29_tamper (A : Aead) (kdf : Kdf) (pw salt base f c : Bytes)
+    (L : Locked A kdf pw salt base f c)
+    (kdfInj : ∀ s, s.length = SALT_SIZE → kdf pw s = kdf pw salt → s = salt)
+    (c' out : Bytes) (hlen : c'.length = c.length) (hu : unlock true A kdf pw c' = .ok out) :
+    out = f ∧ ∃ (nc r3 : Bytes), nc.length = COUNTER_BYTES ∧ r3.length = 3 ∧
+      c' = encodeHeader { salt := salt, nonce := base.take NONCE_KEEP ++ nc, originalSize := f.length,
+                          reserved := STREAM_FLAG :: r3 }
+            ++ frames A (kdf pw salt) base 0 (chunks CHUNK_SIZE f) := by
+  obtain ⟨hs0, hn0, hr0, _⟩ := lockHeader_facts salt base f L.saltLen L.baseLen
+  have hl0 := encodeHeader_length _ hs0 hn0 hr0
+  obtain ⟨h, hs, hn, hr, hz, hcase⟩ :=
+    unlock_ok_shape true A kdf (kdf pw salt) base (chunks CHUNK_SIZE f) L.ideal L.baseLen L.chunks_len pw c' out
+      (by rw [hlen]; exact L.capLen) hu
+  have hl := encodeHeader_length h hs hn hr
+  have hclen : c.length = HEADER_SIZE + (frames A (kdf pw salt) base 0 (chunks CHUNK_SIZE f)).length := by
+    conv => lhs; rw [L.cap_eq]
+    rw [List.length_append, hl0]
+  rcases hcase with ⟨qs, tail, hflag, hc, hpre, hout, _, hkey, hfx⟩ | ⟨m, p, _, hm, hc, _⟩
+  · obtain ⟨htail, hosz⟩ := hfx rfl
+    subst htail
+    rw [List.append_nil] at hc
+    -- same length ⇒ all frames are there
+    have hfr : frames A (kdf pw salt) base 0 (chunks CHUNK_SIZE f) =
+        frames A (kdf pw salt) base 0 qs ++ frames A (kdf pw salt) base (0 + qs.length) ((chunks CHUNK_SIZE f).drop qs.length) := by
+      rw [← frames_append, hpre]
+    have hrest : (chunks CHUNK_SIZE f).drop qs.length = [] := by
+      have h1 : c'.length = HEADER_SIZE + (frames A (kdf pw salt) base 0 qs).length := by
+        conv => lhs; rw [hc]
+        rw [List.length_append, hl]
+      have h2 := frames_length_ge A (kdf pw salt) base ((chunks CHUNK_SIZE f).drop qs.length) (0 + qs.length)
+      rw [hfr, List.length_append] at hclen
+      have : ((chunks CHUNK_SIZE f).drop qs.length).length = 0 := by omega
+      exact List.eq_nil_of_length_eq_zero this
+    rw [hrest, List.append_nil] at hpre
+    subst hpre
+    have hof : out = f := by rw [hout, chunks_flatten CHUNK_SIZE chunk_pos]
+    have hne : chunks CHUNK_SIZE f ≠ [] := by
+      intro h0
+      have := chunks_flatten CHUNK_SIZE chunk_pos f
+      rw [h0] at this
+      exact L.f_ne this.symm
+    obtain ⟨hk, hnk⟩ := hkey hne
+    have hsalt : h.salt = salt := kdfInj _ hs hk
+    refine ⟨hof, h.nonce.drop NONCE_KEEP, h.reserved.drop 1, ?_, ?_, ?_⟩
+    · simp only [List.length_drop, hn]; decide
+    · simp only [List.length_drop, hr]
+    · rw [hc]
+      congr 1
+      have hnonce : h.nonce = base.take NONCE_KEEP ++ h.nonce.drop NONCE_KEEP := by
+        rw [← hnk, List.take_append_drop]
+      have hres : h.reserved = STREAM_FLAG :: h.reserved.drop 1 := by
+        cases hrs : h.reserved with
+        | nil => rw [hrs] at hr; simp at hr
+        | cons x xs =>
+          rw [hrs] at hflag
+          simp only [List.head?_cons, Option.some.injEq] at hflag
+          rw [hflag]; simp
+      have hsize : h.originalSize = f.length := by rw [hosz, hof]
+      cases h with
+      | mk s nn os rs =>
+        simp only at hsalt hnonce hres hsize
+        rw [hsalt, hsize]
+        congr 1
+        dsimp only
+        rw [← hnonce, ← hres]
+  · -- a one-shot capsule made of one chunk is shorter than the capsule
+    exfalso
+    have h1 : c'.length = HEADER_SIZE + (A.enc (kdf pw salt) (nonceFor base m) p).length := by
+      conv => lhs; rw [hc]
+      rw [List.length_append, hl]
+    have h2 := frames_piece_le A (kdf pw salt) base (chunks CHUNK_SIZE f) 0 m p hm
+    rw [Nat.zero_add] at h2
+    omega
+
+/-! ## The literal property is false: accepted modifications (completeness side) -/
+
+/-- **C29_accepts_ignored_header_bytes** — the 8 nonce bytes overwritten by the chunk counter and `reserved[1..3]`
+    are neither authenticated nor looked at: with ANY values there the capsule unlocks to `f`. -/
+theorem C29_accepts_ignored_header_bytes (fx : Bool) (A : Aead) (kdf : Kdf) (pw salt base f c : Bytes)
+    (L : Locked A kdf pw salt base f c) (nc r3 : Bytes) (hnc : nc.length = COUNTER_BYTES) (hr3 : r3.length = 3) :
+    unlock fx A kdf pw
+      (encodeHeader { salt := salt, nonce := base.take NONCE_KEEP ++ nc, originalSize := f.length,
+                      reserved := STREAM_FLAG :: r3 }
+        ++ frames A (kdf pw salt) base 0 (chunks CHUNK_SIZE f)) = .ok f := by
+  have hbk : (base.take NONCE_KEEP).length = NONCE_KEEP := by
+    simp only [List.length_take, L.baseLen]; decide
+  have htk : base.take NONCE_KEEP = (base.take NONCE_KEEP ++ nc).take NONCE_KEEP :=
+    (List.take_left' hbk).symm
+  have hg0 : Good A (kdf pw salt) base 0 (chunks CHUNK_SIZE f) :=
+    good_of_ideal A _ base _ (chunks CHUNK_SIZE f) [] L.ideal (by simp) (chunks_len_le CHUNK_SIZE f)
+  have hg : Good A (kdf pw salt) (base.take NONCE_KEEP ++ nc) 0 (chunks CHUNK_SIZE f) := by
+    intro m p hm
+    rw [← nonceFor_congr base _ _ htk]; exact hg0 m p hm
+  have := unlock_stream_accepts fx A kdf pw
+    { salt := salt, nonce := base.take NONCE_KEEP ++ nc, originalSize := f.length, reserved := STREAM_FLAG :: r3 }
+    (chunks CHUNK_SIZE f) [] L.saltLen
+    (by simp only [List.length_append, hbk, hnc]; decide) (by simp [hr3]) L.fLen (by simp) hg (by simp)
+    (fun _ => ⟨rfl, by rw [chunks_flatten CHUNK_SIZE chunk_pos]⟩)
+  rw [chunks_flatten CHUNK_SIZE chunk_pos, List.append_nil] at this
+  rw [frames_congr A (kdf pw salt) base _ htk]
+  exact this
+
+/-- **C29_accepts_truncation_with_size_edit** — keep the first `J` frames and rewrite the header's `original_size`
+    to the size of their plaintext: both readers accept and output the first `J` chunks of `f`. -/
+theorem C29_accepts_truncation_with_size_edit (fx : Bool) (A : Aead) (kdf : Kdf) (pw salt base f c : Bytes)
+    (L : Locked A kdf pw salt base f c) (J : Nat) :
+    unlock fx A kdf pw
+      (encodeHeader { lockHeader salt base f with originalSize := ((chunks CHUNK_SIZE f).take J).flatten.length }
+        ++ frames A (kdf pw salt) base 0 ((chunks CHUNK_SIZE f).take J)) = .ok ((chunks CHUNK_SIZE f).take J).flatten := by
+  obtain ⟨hs0, hn0, hr0, hflag0⟩ := lockHeader_facts salt base f L.saltLen L.baseLen
+  have hg : Good A (kdf pw salt) base 0 ((chunks CHUNK_SIZE f).take J) :=
+    good_of_ideal A _ base _ _ ((chunks CHUNK_SIZE f).drop J) L.ideal (List.take_append_drop J _) (chunks_len_le CHUNK_SIZE f)
+  have hsz : ((chunks CHUNK_SIZE f).take J).flatten.length < 18446744073709551616 := by
+    have h1 : ((chunks CHUNK_SIZE f).take J).flatten.length ≤ (chunks CHUNK_SIZE f).flatten.length := by
+      conv => rhs; rw [← List.take_append_drop J (chunks CHUNK_SIZE f)]
+      simp only [List.flatten_append, List.length_append]; omega
+    rw [chunks_flatten CHUNK_SIZE chunk_pos] at h1
+    have := L.fLen; omega
+  have := unlock_stream_accepts fx A kdf pw
+    { lockHeader salt base f with originalSize := ((chunks CHUNK_SIZE f).take J).flatten.length }
+    ((chunks CHUNK_SIZE f).take J) [] hs0 hn0 hr0 hsz hflag0 hg (by simp) (fun _ => ⟨rfl, rfl⟩)
+  rw [List.append_nil] at this
+  exact this
+
+/-- **C29_accepts_oneshot_rewrap** — chunk `m` of the stream re-wrapped as a legacy one-shot capsule (any reserved
+    bytes whose first is not the stream flag, nonce = the chunk's nonce, original_size = the chunk's size, body =
+    the chunk's bare ciphertext) is accepted and yields that chunk, provided the chunk starts with the MV2 magic
+    (chunk 0 always does). -/
+theorem C29_accepts_oneshot_rewrap (fx : Bool) (A : Aead) (kdf : Kdf) (pw salt base f c : Bytes)
+    (L : Locked A kdf pw salt base f c) (m : Nat) (p r : Bytes) (hm : (chunks CHUNK_SIZE f)[m]? = some p)
+    (hr : r.length = 4) (hflag : r.head? ≠ some STREAM_FLAG) (hv : validMv2 p = true) :
+    unlock fx A kdf pw
+      (encodeHeader { salt := salt, nonce := nonceFor base m, originalSize := p.length, reserved := r }
+        ++ A.enc (kdf pw salt) (nonceFor base m) p) = .ok p := by
+  have hpl : p.length < 18446744073709551616 := by
+    have h1 := length_le_flatten _ m p hm
+    rw [chunks_flatten CHUNK_SIZE chunk_pos] at h1
+    have := L.fLen; omega
+  exact unlock_oneshot_accepts fx A kdf pw
+    { salt := salt, nonce := nonceFor base m, originalSize := p.length, reserved := r } p L.saltLen
+    (nonceFor_length base m L.baseLen) hr rfl hpl hflag hv (L.ideal.correct m p hm)
+
+/-! ## The defect repaired by fixes/C29.diff -/
+
+/-- **C29_unfixed_accepts_truncation** — the reader as it was: for every file of more than one chunk, the capsule
+    cut right after the first frame (`HEADER + 4 + CHUNK_SIZE + TAG` bytes, a proper prefix) — or up to 3 bytes
+    later — is accepted and the first `CHUNK_SIZE` bytes of `f` are written, which is not `f`. -/
+theorem C29_unfixed_accepts_truncation (A : Aead) (kdf : Kdf) (pw salt base f c : Bytes)
+    (L : Locked A kdf pw salt base f c) (hbig : CHUNK_SIZE < f.length) (k : Nat) (hk : k < 4) :
+    HEADER_SIZE + (4 + (CHUNK_SIZE + TAG_SIZE)) + k < c.length ∧
+    unlock false A kdf pw (c.take (HEADER_SIZE + (4 + (CHUNK_SIZE + TAG_SIZE)) + k)) = .ok (f.take CHUNK_SIZE) ∧
+    f.take CHUNK_SIZE ≠ f := by
+  obtain ⟨hs0, hn0, hr0, hflag0⟩ := lockHeader_facts salt base f L.saltLen L.baseLen
+  have hl0 := encodeHeader_length _ hs0 hn0 hr0
+  have hch := chunks_head CHUNK_SIZE f L.f_ne
+  -- the second chunk exists
+  have hdrop_ne : f.drop CHUNK_SIZE ≠ [] := by
+    intro h0
+    have := congrArg List.length h0
+    simp only [List.length_drop, List.length_nil] at this; omega
+  have hrest : chunksOf CHUNK_SIZE (f.length - 1) (f.drop CHUNK_SIZE) =
+      (f.drop CHUNK_SIZE).take CHUNK_SIZE :: chunksOf CHUNK_SIZE (f.length - 1 - 1) ((f.drop CHUNK_SIZE).drop CHUNK_SIZE) := by
+    have : f.length - 1 = (f.length - 1 - 1) + 1 := by have := chunk_pos; omega
+    rw [this, chunksOf]
+    cases hd : f.drop CHUNK_SIZE with
+    | nil => exact absurd hd hdrop_ne
+    | cons x xs => simp
+  have h0m : (chunks CHUNK_SIZE f)[0]? = some (f.take CHUNK_SIZE) := by rw [hch]; rfl
+  have h1m : (chunks CHUNK_SIZE f)[1]? = some ((f.drop CHUNK_SIZE).take CHUNK_SIZE) := by rw [hch, hrest]; rfl
+  have hct0 : (A.enc (kdf pw salt) (nonceFor base 0) (f.take CHUNK_SIZE)).length = CHUNK_SIZE + TAG_SIZE := by
+    rw [L.ideal.encLen 0 _ h0m]; simp only [List.length_take]; omega
+  have hg : Good A (kdf pw salt) base 0 [f.take CHUNK_SIZE] :=
+    good_of_ideal A _ base _ [f.take CHUNK_SIZE] (chunksOf CHUNK_SIZE (f.length - 1) (f.drop CHUNK_SIZE)) L.ideal
+      (by rw [hch]; rfl) (chunks_len_le CHUNK_SIZE f)
+  -- shape of the capsule: header, first frame, second frame, rest
+  have hcap : c = encodeHeader (lockHeader salt base f) ++
+      frames A (kdf pw salt) base 0 [f.take CHUNK_SIZE] ++
+      (frame (A.enc (kdf pw salt) (nonceFor base 1) ((f.drop CHUNK_SIZE).take CHUNK_SIZE)) ++
+        frames A (kdf pw salt) base 2 (chunksOf CHUNK_SIZE (f.length - 1 - 1) ((f.drop CHUNK_SIZE).drop CHUNK_SIZE))) := by
+    rw [L.cap_eq, hch, hrest]
+    simp only [frames, List.append_assoc, List.append_nil]
+  have hfirst : (encodeHeader (lockHeader salt base f) ++ frames A (kdf pw salt) base 0 [f.take CHUNK_SIZE]).length =
+      HEADER_SIZE + (4 + (CHUNK_SIZE + TAG_SIZE)) := by
+    simp only [frames, List.append_nil, List.length_append, hl0, frame_length, hct0]
+  have hlt : HEADER_SIZE + (4 + (CHUNK_SIZE + TAG_SIZE)) + k < c.length := by
+    conv => rhs; rw [hcap]
+    rw [List.length_append, hfirst, List.length_append, frame_length]
+    omega
+  refine ⟨hlt, ?_, ?_⟩
+  · have htake : c.take (HEADER_SIZE + (4 + (CHUNK_SIZE + TAG_SIZE)) + k) =
+        encodeHeader (lockHeader salt base f) ++ frames A (kdf pw salt) base 0 [f.take CHUNK_SIZE] ++
+          (frame (A.enc (kdf pw salt) (nonceFor base 1) ((f.drop CHUNK_SIZE).take CHUNK_SIZE)) ++
+            frames A (kdf pw salt) base 2 (chunksOf CHUNK_SIZE (f.length - 1 - 1) ((f.drop CHUNK_SIZE).drop CHUNK_SIZE))).take k := by
+      conv => lhs; rw [hcap]
+      rw [← hfirst, List.take_length_add_append]
+    rw [htake]
+    have := unlock_stream_accepts false A kdf pw (lockHeader salt base f) [f.take CHUNK_SIZE]
+      ((frame (A.enc (kdf pw salt) (nonceFor base 1) ((f.drop CHUNK_SIZE).take CHUNK_SIZE)) ++
+            frames A (kdf pw salt) base 2 (chunksOf CHUNK_SIZE (f.length - 1 - 1) ((f.drop CHUNK_SIZE).drop CHUNK_SIZE))).take k)
+      hs0 hn0 hr0 L.fLen hflag0 hg (by simp only [List.length_take]; omega) (by intro h; cases h)
+    simpa [lockHeader] using this
+  · intro h
+    have := congrArg List.length h
+    simp only [List.length_take] at this; omega
+
+/-! ## Full-strength statements and their refutation -/
+
+/-- An AEAD that is ideal BY CONSTRUCTION for one `lock` call (key, base nonce, plaintext chunks `ps`): ciphertext
+    = plaintext ‖ TAG_SIZE zero bytes, and decryption succeeds exactly on the triples that call produced.  It shows
+    that the hypotheses `Locked` are satisfiable (non-vacuity) and carries the counterexamples. -/
+noncomputable def idealAead (key base : Bytes) (ps : List Bytes) : Aead where
+  enc _ _ p := p ++ zeros TAG_SIZE
+  dec k n c :=
+    open Classical in
+    if k = key ∧ ∃ m p, ps[m]? = some p ∧ n = nonceFor base m ∧ c = p ++ zeros TAG_SIZE
+    then some (c.take (c.length - TAG_SIZE)) else none
+
+theorem idealAead_ideal (key base : Bytes) (ps : List Bytes) : AeadIdeal (idealAead key base ps) key base ps where
+  correct m p hm := by
+    simp only [idealAead]
+    rw [if_pos ⟨rfl, m, p, hm, rfl, rfl⟩]
+    simp
+  encLen m p _ := by simp [idealAead]
+  auth k n c q h := by
+    simp only [idealAead] at h
+    split at h
+    · rename_i hc
+      obtain ⟨hk, m, p, hm, hn, hcc⟩ := hc
+      exact ⟨hk, m, p, hm, hn, by rw [hcc]; rfl⟩
+    · cases h
+
+/-- a file of one chunk and a file of two chunks, with the hypotheses discharged (non-vacuity of `Locked`) -/
+def demoFile (extra : Nat) : Bytes := MV2_MAGIC ++ List.replicate extra 0x2A
+def demoKdf : Kdf := fun pw salt => pw ++ salt
+def demoSalt : Bytes := zeros SALT_SIZE
+def demoBase : Bytes := zeros NONCE_SIZE
+noncomputable def demoAead (extra : Nat) : Aead :=
+  idealAead (demoKdf [1] demoSalt) demoBase (chunks CHUNK_SIZE (demoFile extra))
+noncomputable def demoCapsule (extra : Nat) : Bytes :=
+  encodeHeader (lockHeader demoSalt demoBase (demoFile extra)) ++
+    frames (demoAead extra) (demoKdf [1] demoSalt) demoBase 0 (chunks CHUNK_SIZE (demoFile extra))
+
+theorem demoFile_length (extra : Nat) : (demoFile extra).length = 4 + extra := by
+  simp [demoFile, MV2_MAGIC_eq]; omega
+
+theorem frames_length_le (A : Aead) (key base : Bytes) (ps : List Bytes) (i : Nat)
+    (h : ∀ n p, (A.enc key n p).length = p.length + TAG_SIZE) :
+    (frames A key base i ps).length = ps.flatten.length + (4 + TAG_SIZE) * ps.length := by
+  induction ps generalizing i with
+  | nil => simp [frames]
+  | cons p ps ih =>
+    simp only [frames, List.length_append, frame_length, h, ih, List.flatten_cons, List.length_cons]
+    rw [Nat.mul_add]; omega
+
+theorem demo_locked (extra : Nat) (hx : extra < 4294967296) :
+    Locked (demoAead extra) demoKdf [1] demoSalt demoBase (demoFile extra) (demoCapsule extra) where
+  saltLen := by simp [demoSalt]
+  baseLen := by simp [demoBase]
+  fLen := by rw [demoFile_length]; omega
+  capLen := by
+    obtain ⟨a0, b0, c0, _⟩ := lockHeader_facts demoSalt demoBase (demoFile extra) (by simp [demoSalt]) (by simp [demoBase])
+    have hl := encodeHeader_length (lockHeader demoSalt demoBase (demoFile extra)) a0 b0 c0
+    have hf := frames_length_le (demoAead extra) (demoKdf [1] demoSalt) demoBase (chunks CHUNK_SIZE (demoFile extra)) 0
+      (by intro n p; simp [demoAead, idealAead])
+    have hc := chunks_length_le CHUNK_SIZE (demoFile extra)
+    rw [chunks_flatten CHUNK_SIZE chunk_pos] at hf
+    rw [demoFile_length] at hf hc
+    simp only [demoCapsule, List.length_append, hl, hf, HEADER_SIZE_eq, TAG_SIZE_eq]
+    have : (4 + 16) * (chunks CHUNK_SIZE (demoFile extra)).length ≤ (4 + 16) * (4 + extra) := Nat.mul_le_mul_left _ hc
+    omega
+  locked := by
+    have h1 : 4 ≤ (demoFile extra).length := by rw [demoFile_length]; omega
+    have h2 : (demoFile extra).take 4 = MV2_MAGIC := by
+      have : MV2_MAGIC.length = 4 := by decide
+      simp only [demoFile]; rw [← this, List.take_left]
+    exact lock_of_valid _ _ _ _ _ _ h1 h2
+  ideal := idealAead_ideal _ _ _
+
+/-- the hypotheses of every theorem above are satisfiable: a 12-byte file (one chunk) … -/
+example : Locked (demoAead 8) demoKdf [1] demoSalt demoBase (demoFile 8) (demoCapsule 8) := demo_locked 8 (by decide)
+/-- … and a file of `CHUNK_SIZE + 4` bytes (two chunks) -/
+example : Locked (demoAead CHUNK_SIZE) demoKdf [1] demoSalt demoBase (demoFile CHUNK_SIZE) (demoCapsule CHUNK_SIZE) :=
+  demo_locked CHUNK_SIZE (by decide)
+/-- `kdfInj` of `C29_tamper` holds for the demo KDF -/
+example : ∀ s, s.length = SALT_SIZE → demoKdf [1] s = demoKdf [1] demoSalt → s = demoSalt := by
+  intro s _ h; simpa [demoKdf] using h
+
+/-- the truncation clause for the reader as it was at /repo HEAD before fixes/C29.diff -/
+def C29_truncation_unfixed : Prop :=
+  ∀ (A : Aead) (kdf : Kdf) (pw salt base f c : Bytes), Locked A kdf pw salt base f c →
+    ∀ n, n < c.length → ∃ e, unlock false A kdf pw (c.take n) = .error e
+
+/-- **C29_counterexample_unfixed** — the unrepaired reader violates the truncation clause (and writes a wrong
+    plaintext): witness = a file of CHUNK_SIZE + 4 bytes, capsule cut after its first frame. -/
+theorem C29_counterexample_unfixed : ¬ C29_truncation_unfixed := by
+  intro hall
+  have L := demo_locked CHUNK_SIZE (by decide)
+  obtain ⟨hlt, hok, _⟩ := C29_unfixed_accepts_truncation _ _ _ _ _ _ _ L (by rw [demoFile_length]; omega) 0 (by decide)
+  obtain ⟨e, he⟩ := hall _ _ _ _ _ _ _ L _ hlt
+  rw [hok] at he; cases he
+
+/-- the literal property for the repaired reader: EVERY capsule other than `lock`'s output is rejected -/
+def C29_full : Prop :=
+  ∀ (A : Aead) (kdf : Kdf) (pw salt base f c : Bytes), Locked A kdf pw salt base f c →
+    ∀ c', c' ≠ c → ∃ e, unlock true A kdf pw c' = .error e
+
+/-- **C29_counterexample** — `C29_full` is false (format-level, not repaired): the capsule of the 12-byte demo file
+    with `reserved[1..3] = 1,1,1` instead of `0,0,0` is accepted. -/
+theorem C29_counterexample : ¬ C29_full := by
+  intro hall
+  have L := demo_locked 8 (by decide)
+  have hacc := C29_accepts_ignored_header_bytes true _ _ _ _ _ _ _ L (demoBase.drop NONCE_KEEP) [1, 1, 1]
+    (by simp [demoBase]; decide) rfl
+  have hne : encodeHeader (Header.mk demoSalt (demoBase.take NONCE_KEEP ++ demoBase.drop NONCE_KEEP) (demoFile 8).length
+        (STREAM_FLAG :: [1, 1, 1])) ++
+      frames (demoAead 8) (demoKdf [1] demoSalt) demoBase 0 (chunks CHUNK_SIZE (demoFile 8)) ≠ demoCapsule 8 := by
+    intro heq
+    rw [L.cap_eq] at heq
+    obtain ⟨a0, b0, c0, _⟩ := lockHeader_facts demoSalt demoBase (demoFile 8) (by simp [demoSalt]) (by simp [demoBase])
+    have a1 : (Header.mk demoSalt (demoBase.take NONCE_KEEP ++ demoBase.drop NONCE_KEEP) (demoFile 8).length
+        (STREAM_FLAG :: [1, 1, 1])).salt.length = SALT_SIZE := by simp [demoSalt]
+    have b1 : (Header.mk demoSalt (demoBase.take NONCE_KEEP ++ demoBase.drop NONCE_KEEP) (demoFile 8).length
+        (STREAM_FLAG :: [1, 1, 1])).nonce.length = NONCE_SIZE := by simp [demoBase]
+    have c1 : (Header.mk demoSalt (demoBase.take NONCE_KEEP ++ demoBase.drop NONCE_KEEP) (demoFile 8).length
+        (STREAM_FLAG :: [1, 1, 1])).reserved.length = 4 := by simp
+    have hl1 := encodeHeader_length _ a1 b1 c1
+    have hl2 := encodeHeader_length _ a0 b0 c0
+    have h1 := (split_eq _ _ _ _ hl1 hl2 heq).1
+    have h2 := encodeHeader_inj _ _ a1 b1 c1 (by rw [demoFile_length]; decide) a0 b0 c0
+      (by show (demoFile 8).length < _; rw [demoFile_length]; decide) h1
+    have h3 := congrArg Header.reserved h2
+    simp [lockHeader, LOCK_RESERVED_eq, STREAM_FLAG_eq] at h3
+  obtain ⟨e, he⟩ := hall _ _ _ _ _ _ _ L _ hne
+  rw [hacc] at he; cases he
+
+/-- the literal "never a wrong plaintext" clause for the repaired reader, without the proviso on `original_size` -/
+def C29_never_wrong_plaintext_full : Prop :=
+  ∀ (A : Aead) (kdf : Kdf) (pw salt base f c : Bytes), Locked A kdf pw salt base f c →
+    ∀ c' out, unlock true A kdf pw c' = .ok out → out = f
+
+/-- **C29_counterexample_size_edit** — it is false: the two-chunk demo capsule cut after the first frame, with
+    `original_size` rewritten to CHUNK_SIZE, is accepted and yields the first chunk only. -/
+theorem C29_counterexample_size_edit : ¬ C29_never_wrong_plaintext_full := by
+  intro hall
+  have L := demo_locked CHUNK_SIZE (by decide)
+  have hacc := C29_accepts_truncation_with_size_edit true _ _ _ _ _ _ _ L 1
+  have := hall _ _ _ _ _ _ _ L _ _ hacc
+  have hch := chunks_head CHUNK_SIZE (demoFile CHUNK_SIZE) L.f_ne
+  rw [hch] at this
+  simp only [List.take_succ_cons, List.take_zero, List.flatten_cons, List.flatten_nil, List.append_nil] at this
+  have := congrArg List.length this
+  simp only [List.length_take, demoFile_length] at this
+  omega
 
 end Mv.Capsule
